@@ -1,19 +1,25 @@
 ------------------------ MODULE MCCredentialsSession ------------------------
-(* History on one Runtime (C14).  The application configures the Runtime     *)
-(* (DefaultAuthentication, Debug), makes a request, REPLACES the             *)
-(* configuration, makes another request ... up to MaxSteps requests chosen   *)
-(* freely from a pool (no / bearer / basic / query-API-key operation auth,   *)
-(* preset Authorization header, static query parameters named like the key,  *)
-(* direct or really sent).  The state is the configuration plus what the     *)
-(* implementation remembers; every request, judged by every authenticator of *)
-(* the pool, must satisfy C14 for the configuration in force WHEN IT IS      *)
-(* MADE, and the faithful model's memory stays empty.                        *)
+(* History on Runtimes and on the caller's operation value (C14).  The       *)
+(* application has two Runtimes A (1) and B (2); it configures one of them   *)
+(* (DefaultAuthentication, Debug), makes a request through one of them,      *)
+(* REPLACES a configuration, makes another request ... up to MaxSteps        *)
+(* requests chosen freely from a pool (no / bearer / basic / query-API-key   *)
+(* operation auth, preset Authorization header, static query parameters      *)
+(* named like the key, direct or really sent).  A request is made either     *)
+(* with a fresh ClientOperation value or by submitting again THE SAME value  *)
+(* (one without AuthInfo of its own) - whatever was configured meanwhile     *)
+(* and whichever Runtime sends it.  The state is the configurations plus     *)
+(* what the implementation remembers (in the Runtimes, in the operation      *)
+(* value); every request, judged by every authenticator of the pool, must    *)
+(* satisfy C14 for the configuration in force of the SENDING Runtime WHEN IT *)
+(* IS MADE, the faithful model's memories stay empty and the caller's        *)
+(* operation value is left unchanged.                                        *)
 EXTENDS Credentials
 
 CONSTANTS MaxSteps
 
-VARIABLES mem, cfg, n, expect, seen
-vars == <<mem, cfg, n, expect, seen>>
+VARIABLES mem, opval, cfg, n, expect, seen
+vars == <<mem, opval, cfg, n, expect, seen>>
 
 W(t, name, loc, u, p) == [t |-> t, name |-> name, in |-> loc, u |-> u, p |-> p]
 Basic(u, p)       == W("basic", <<>>, "", u, p)
@@ -21,15 +27,17 @@ APIKey(k, loc, v) == W("apikey", k, loc, <<>>, v)
 Bearer(t)         == W("bearer", <<>>, "", <<>>, t)
 T(i) == <<116, 48 + i>>
 KQ   == <<107>>
-XKEY == <<88, 45, 75, 101, 121>>
 
 DefPool == { <<>>, <<Bearer(T(1))>>, <<Bearer(T(2))>>, <<APIKey(KQ, "query", T(3))>>, <<Basic(<<100>>, <<101>>)>> }
 OpPool  == { <<>>, <<Bearer(T(4))>>, <<APIKey(KQ, "query", T(5))>>, <<Basic(<<117>>, <<112>>)>> }
-StaticPool == { <<>>, <<[k |-> KQ, v |-> T(6)]>>, <<[k |-> ACCESS, v |-> T(7)]>> }
+StaticPool == { <<>>, <<[k |-> KQ, v |-> T(6)]>> }
+Runtimes == {1, 2}
 
 Req(op, authz, st, tr) == [op |-> op, def |-> <<>>, authz |-> authz, hdrs |-> <<>>, query |-> <<>>, form |-> <<>>, media |-> "none",
                            static |-> st, debug |-> FALSE, transport |-> tr]
-ReqPool == { Req(op, az, st, tr) : op \in OpPool, az \in {<<>>, <<67, 32, 120>>}, st \in StaticPool, tr \in {"direct", "server"} }
+\* requests made with a fresh operation value / with the shared one (no AuthInfo of its own; its description never changes)
+FreshPool  == { Req(op, az, st, tr) : op \in OpPool, az \in {<<>>, <<67, 32, 120>>}, st \in StaticPool, tr \in {"direct", "server"} }
+SharedReq(tr) == Req(<<>>, <<>>, <<>>, tr)
 
 Auth(kind, name, loc, scopes, cberr) == [kind |-> kind, name |-> IF kind = "bearer" THEN <<>> ELSE name, scheme |-> IF kind = "bearer" THEN name ELSE "",
                                          in |-> loc, realm |-> "", scopes |-> scopes, cberr |-> cberr]
@@ -39,28 +47,42 @@ AuthPool == { Auth("basic", <<>>, "", <<>>, e) : e \in BOOLEAN }
             \cup { Auth("bearer", "oauth", "", <<"read">>, e) : e \in BOOLEAN }
 
 Cfg0 == [def |-> <<>>, debug |-> FALSE]
-Init == mem = RtMem0 /\ cfg = Cfg0 /\ n = 0 /\ expect = Req(<<>>, <<>>, <<>>, "direct") /\ seen = Req(<<>>, <<>>, <<>>, "direct")
+Init == /\ mem = [r \in Runtimes |-> RtMem0] /\ opval = OpVal0 /\ cfg = [r \in Runtimes |-> Cfg0] /\ n = 0
+        /\ expect = SharedReq("direct") /\ seen = SharedReq("direct")
 
-\* the application replaces the configuration
+\* the application replaces the configuration of a Runtime (Debug only on A)
 Reconfigure ==
   /\ n < MaxSteps
-  /\ \E d \in DefPool, dbg \in BOOLEAN : cfg' = [def |-> d, debug |-> dbg]
-  /\ UNCHANGED <<mem, n, expect, seen>>
+  /\ \E r \in Runtimes, d \in DefPool, dbg \in BOOLEAN :
+       /\ (r = 2 => ~dbg)
+       /\ cfg' = [cfg EXCEPT ![r] = [def |-> d, debug |-> dbg]]
+  /\ UNCHANGED <<mem, opval, n, expect, seen>>
 
-\* ... and makes a request
-Request ==
+\* ... makes a request with a fresh operation value through A
+Fresh ==
   /\ n < MaxSteps
-  /\ \E r \in ReqPool :
-       LET s == RtRequest(mem, cfg, r) IN
-       /\ mem' = s.mem /\ seen' = s.seen /\ expect' = InForceCase(cfg, r)
+  /\ \E q \in FreshPool :
+       LET s == RtSubmit(mem[1], OpVal0, cfg[1], q) IN
+       /\ mem' = [mem EXCEPT ![1] = s.mem] /\ seen' = s.seen /\ expect' = InForceCase(cfg[1], q)
+  /\ n' = n + 1
+  /\ UNCHANGED <<cfg, opval>>
+
+\* ... or submits the shared operation value (again) through either Runtime
+Resubmit ==
+  /\ n < MaxSteps
+  /\ \E r \in Runtimes, tr \in {"direct", "server"} :
+       LET s == RtSubmit(mem[r], opval, cfg[r], SharedReq(tr)) IN
+       /\ mem' = [mem EXCEPT ![r] = s.mem] /\ opval' = s.opval /\ seen' = s.seen /\ expect' = InForceCase(cfg[r], SharedReq(tr))
   /\ n' = n + 1
   /\ UNCHANGED cfg
 
-Next == Reconfigure \/ Request
+Next == Reconfigure \/ Fresh \/ Resubmit
 Spec == Init /\ [][Next]_vars
 
-\* every request of every history carries the credentials of the configuration in force when it is made
+\* every request of every history carries the credentials of the configuration in force, of the Runtime that sends it, when it is made
 Holds == n > 0 => \A A \in AuthPool : AuthOK(expect, A, SrvAuth(Wire(seen), A))
 \* a correct Runtime remembers nothing but its configuration
-NothingRemembered == mem = RtMem0
+NothingRemembered == \A r \in Runtimes : mem[r] = RtMem0
+\* Submit leaves the caller's operation value as it was
+OperationUnchanged == opval = OpVal0
 =============================================================================
